@@ -687,7 +687,14 @@ class MementoFunctionHashRule(HashRule):
         # pointing to a memento function is now pointing to something else, or even undefined
         # so detect if that happened, else return `False`.
         new_fn = self.resolver()
-        return not isinstance(new_fn, MementoFunctionType)
+        # Memento functions may be wrapped by decorators (see try_resolve)
+        while not isinstance(new_fn, MementoFunctionType) and hasattr(
+            new_fn, "__wrapped__"
+        ):
+            new_fn = new_fn.__wrapped__
+        # The symbol may also point to another memento function by now: a re-bound alias, or
+        # the definition that replaced the one this rule saw while it was being decorated.
+        return new_fn is not self.memento_fn
 
     def __repr__(self):
         return f"MementoFunctionHashRule(key={repr(self.key)})"
